@@ -421,6 +421,12 @@ impl PathResponses {
     pub(crate) fn is_empty(&self) -> bool {
         self.pending.is_empty()
     }
+
+    /// Number of queued responses, for the verification hooks
+    #[cfg(quinn_rs_quinn_verif)]
+    pub(crate) fn verif_len(&self) -> usize {
+        self.pending.len()
+    }
 }
 
 #[derive(Copy, Clone)]
